@@ -215,7 +215,7 @@ type SpendFacts struct {
 	NIn      int      `json:"nin"`
 	InIdx    int      `json:"inidx"`
 	Seq      int      `json:"seq"`
-	Ver      int      `json:"ver"`
+	Ver      int      `json:"txver"`
 	NOut     int      `json:"nout"`
 	ScriptOK bool     `json:"scriptok"`
 	Value    int64    `json:"value"`
